@@ -33,10 +33,24 @@ HARNESSES = {
 }
 
 
-def tree_hash():
+# source files of /repo each harness can depend on (everything it calls, transitively, lives in these files);
+# src/lib.rs declares the modules and the ascii! macro
+DEPS = {
+    'csi_dispatch_routes_every_final': ['parser_listener.rs', 'control.rs', 'lib.rs'],
+    'escape_dispatch_routes_every_final': ['parser_listener.rs', 'control.rs', 'lib.rs'],
+    'basic_dispatch_routes_every_c0': ['parser_listener.rs', 'control.rs', 'lib.rs'],
+    'charset_tables_match_reference': ['charset.rs', 'lib.rs'],
+    'control_tables': ['control.rs', 'lib.rs'],
+    'mode_constants': ['modes.rs', 'lib.rs'],
+}
+
+
+def tree_hash(name=None):
     h = hashlib.sha256()
-    for p in sorted(glob.glob(os.path.join(D.REPO, 'src', '*.rs'))) + [os.path.join(D.REPO, 'Cargo.toml')] + \
-            sorted(glob.glob(os.path.join(KDIR, 'src', '*.rs'))):
+    files = sorted(glob.glob(os.path.join(D.REPO, 'src', '*.rs')))
+    if name in DEPS:
+        files = [os.path.join(D.REPO, 'src', f) for f in DEPS[name]]
+    for p in files + [os.path.join(D.REPO, 'Cargo.toml')] + sorted(glob.glob(os.path.join(KDIR, 'src', '*.rs'))):
         h.update(p.encode())
         h.update(open(p, 'rb').read())
     return h.hexdigest()
@@ -88,10 +102,10 @@ def run_for(prop, tier):
     res = []
     cdir = os.path.join(D.BUILD, 'cache')
     os.makedirs(cdir, exist_ok=True)
-    th = tree_hash()
     for name, h in HARNESSES.items():
         if prop not in h['props']:
             continue
+        th = tree_hash(name)
         cp = os.path.join(cdir, 'kani_%s_%s.json' % (name, th[:32]))
         if os.path.exists(cp) and not os.environ.get('VERIF_NO_CACHE'):
             d = json.load(open(cp))
